@@ -34,7 +34,23 @@ static const uint64_t RETMUL = 1000003ULL;
 static inline std::string S(const char *f, ...) {
   char b[512]; va_list ap; va_start(ap, f); vsnprintf(b, sizeof b, f, ap); va_end(ap); return b;
 }
-struct FuncInfo { std::string name; int na = 0, nd = 0; bool fuel = false; bool cgoto = false; int gv = 0; };
+struct FuncInfo { std::string name; int na = 0, nd = 0; bool fuel = false; bool cgoto = false; int gv = 0; std::string ps; char rt = 'q'; };
+// Parameter kinds ("ps", one letter per parameter in declaration order; integer parameters are numbered a0.. and
+// floating-point ones d0.. in order of appearance):  q i64, i i32, u u32, b i8, B u8, w i16, W u16;  d double, f float, l long double.
+// Result kind "rt": q i64 (default), d, f, l -- the i64 result is masked to what the type holds exactly and converted.
+static inline bool int_kind(char c) { return c != 'd' && c != 'f' && c != 'l'; }
+static inline std::string default_ps(int na, int nd) { return std::string((size_t) na, 'q') + std::string((size_t) nd, 'd'); }
+static inline std::string ps_of(const Json &f) { std::string p = f.gets("ps", ""); return p.empty() ? default_ps((int) f.geti("na"), (int) f.geti("nd")) : p; }
+static inline char rt_of(const Json &f) { std::string p = f.gets("rt", ""); return p.empty() ? 'q' : p[0]; }
+static inline const char *mir_ty(char c) { switch (c) { case 'i': return "i32"; case 'u': return "u32"; case 'b': return "i8"; case 'B': return "u8"; case 'w': return "i16"; case 'W': return "u16"; case 'd': return "d"; case 'f': return "f"; case 'l': return "ld"; default: return "i64"; } }
+static inline const char *c_ty(char c) { switch (c) { case 'i': return "int"; case 'u': return "unsigned int"; case 'b': return "signed char"; case 'B': return "unsigned char"; case 'w': return "short"; case 'W': return "unsigned short"; case 'd': return "double"; case 'f': return "float"; case 'l': return "long double"; default: return "long long"; } }
+static inline int64_t narrow(char c, int64_t v) { switch (c) { case 'i': return (int32_t) v; case 'u': return (int64_t) (uint32_t) v; case 'b': return (int8_t) v; case 'B': return (uint8_t) v; case 'w': return (int16_t) v; case 'W': return (uint16_t) v; default: return v; } }
+static inline uint64_t rt_mask(char rt) { return rt == 'd' ? (1ull << 48) - 1 : rt == 'f' ? (1ull << 20) - 1 : rt == 'l' ? (1ull << 62) - 1 : ~0ull; }
+// the mixed-kind external `extm` (integers beyond the 6 registers, floats, doubles and long doubles on the stack)
+static inline uint64_t extm_value(int64_t s) {
+  uint64_t m = (uint64_t) s & 4095, u = (uint64_t) s;
+  return u * 3 + m * 5 + m * 7 + (uint64_t) (int64_t) (int32_t) s * 11 + m * 13 + (uint64_t) (uint8_t) s * 17 + m * 19 + u * 23 + m * 29 + (uint64_t) (int64_t) (int16_t) s * 31 + u * 37 + (uint64_t) (uint32_t) s * 41 + u * 43;
+}
 
 // visit every nested statement block of a statement
 template <class F> static inline void for_each_block(const Json &st, F fn) {
@@ -54,13 +70,13 @@ template <class F> static inline void for_each_block_mut(Json &st, F fn) {
 template <class F> static inline void walk(const Json &body, F fn) {  // fn(stmt) for every statement, depth first
   for (auto &st : body.a) { fn(st); for_each_block(st, [&](const Json &b) { walk(b, fn); }); }
 }
-static inline std::string proto_name(int na, int nd) { return S("p_%d_%d", na, nd); }
+static inline std::string proto_name(const std::string &ps, char rt) { return std::string("p_") + rt + "_" + ps; }
 
 // ------------------------------------------------------------------------------------------------ MIR text emitter
 struct MirEmitter {
   std::string out; std::vector<std::string> pend; int lab = 0; const Json *fn = nullptr; std::string fname;
   std::vector<std::pair<std::string, std::vector<std::string>>> lrefs;  // table name -> labels
-  std::set<std::string> called, icalled; std::set<std::pair<int, int>> protos; bool uses_ext = false, uses_mem = false; std::set<int> extn_sizes; std::set<std::string> data_used;
+  std::set<std::string> called, icalled; std::set<std::pair<std::string, char>> protos; bool uses_ext = false, uses_mem = false, uses_extm = false; std::set<int> extn_sizes; std::set<std::string> data_used;
   const std::map<std::string, FuncInfo> *sigs = nullptr;
   int loop_depth = 0;
 
@@ -79,15 +95,23 @@ struct MirEmitter {
   void ret_block(const Json &s) {
     insn("mul t2, " + opnd(s) + ", " + std::to_string(RETMUL));
     insn("add t2, t2, " + std::to_string((long long) fn->geti("salt")));
-    insn("ret t2");
+    char rt = rt_of(*fn);
+    if (rt == 'q') { insn("ret t2"); return; }
+    insn("and t2, t2, " + std::to_string((long long) rt_mask(rt)));
+    insn(rt == 'd' ? "i2d rd, t2" : rt == 'f' ? "i2f rf, t2" : "i2ld rl, t2");
+    insn(rt == 'd' ? "ret rd" : rt == 'f' ? "ret rf" : "ret rl");
   }
   void emit_call(const std::string &target, const std::string &dst, const std::string &callee, const Json &args) {
-    auto it = sigs->find(callee); int na = it->second.na, nd = it->second.nd;
-    protos.insert({na, nd});
-    std::string s = "call " + proto_name(na, nd) + ", " + target + ", " + dst;
-    for (int i = 0; i < na; i++) s += ", " + (i < (int) args.size() ? opnd(args[i]) : std::string("0"));
-    for (int i = 0; i < nd; i++) s += S(", %d.0", 2 + i);
+    auto it = sigs->find(callee); const std::string &ps = it->second.ps; char rt = it->second.rt;
+    protos.insert({ps, rt});
+    std::string s = "call " + proto_name(ps, rt) + ", " + target + ", " + (rt == 'q' ? dst : rt == 'd' ? std::string("rd") : rt == 'f' ? std::string("rf") : std::string("rl"));
+    int ai = 0, di = 0;
+    for (char c : ps) {
+      if (int_kind(c)) { s += ", " + (ai < (int) args.size() ? opnd(args[ai]) : std::string("0")); ai++; }
+      else { s += S(", %d.0%s", 2 + di, c == 'f' ? "f" : c == 'l' ? "l" : ""); di++; }
+    }
     insn(s);
+    if (rt != 'q') insn((rt == 'd' ? "d2i " : rt == 'f' ? "f2i " : "ld2i ") + dst + (rt == 'd' ? ", rd" : rt == 'f' ? ", rf" : ", rl"));
   }
   // targets of computed gotos start with an external call: blocks that the optimizer can empty completely make the
   // generated laddr/jmpi code jump to 0 at the pinned commit (a program-level generator defect, see DESIGN)
@@ -123,6 +147,10 @@ struct MirEmitter {
     else if (k == "icall") {
       icalled.insert(st[2].s);
       insn("mov t0, r_" + st[2].s); insn("mov t0, i64:(t0)"); emit_call("t0", opnd(st[1]), st[2].s, st[3]);
+    } else if (k == "extm") {
+      uses_extm = true; std::string v = opnd(st[2]);
+      insn("and t1, " + v + ", 4095"); insn("i2f ff0, t1"); insn("i2ld fl0, t1"); insn("i2d fd0, t1");
+      insn("call p_extm, extm, " + opnd(st[1]) + ", " + v + ", ff0, fl0, " + v + ", fd0, " + v + ", fl0, " + v + ", ff0, " + v + ", " + v + ", " + v + ", " + v);
     } else if (k == "ext") { uses_ext = true; insn("call p_ext, ext, " + opnd(st[1]) + ", " + opnd(st[2]) + ", " + opnd(st[3])); }
     else if (k == "ldata") { data_used.insert(st[2].s); insn("mov t0, " + st[2].s); insn("mov " + opnd(st[1]) + ", i64:(t0)"); }  // first i64 of a data item (own or imported)
     else if (k == "extn") {  // external with many integer arguments (first = count): long argument lists of the FFI / stack-passing paths
@@ -165,25 +193,24 @@ struct MirEmitter {
   }
   std::string func(const Json &f) {
     fn = &f; fname = f.gets("name"); out.clear(); pend.clear(); lab = 0; loop_depth = 0; uses_mem = false;
-    int na = (int) f.geti("na"), nd = (int) f.geti("nd");
-    std::string head = fname + ":\tfunc i64";
-    for (int i = 0; i < na; i++) head += S(", i64:a%d", i);
-    for (int i = 0; i < nd; i++) head += S(", d:d%d", i);
+    std::string ps = ps_of(f); char rt = rt_of(f);
+    std::string head = fname + ":\tfunc " + mir_ty(rt);
+    { int ai = 0, di = 0; for (char c : ps) { if (int_kind(c)) head += S(", %s:a%d", mir_ty(c), ai++); else head += S(", %s:d%d", mir_ty(c), di++); } }
     stmts(f.at("body"));
     if (!pend.empty()) ret_block(Json(0));
     std::string body_txt = out; out.clear();
     for (int i = 0; i < NLOC; i++) insn(S("mov v%d, 0", i));
     insn("mov t2, 0");
     if (uses_mem) insn("alloca buf, 64");
-    for (int i = 0; i < nd; i++) { insn(S("d2i t0, d%d", i)); insn("add v0, v0, t0"); }
+    { int di = 0; for (char c : ps) if (!int_kind(c)) { insn(S("%s t0, d%d", c == 'd' ? "d2i" : c == 'f' ? "f2i" : "ld2i", di++)); insn("add v0, v0, t0"); } }
     if (f.geti("fuel")) { std::string ls = newlab(); insn("bgt " + ls + ", a0, 0"); ret_block(Json(7)); label(ls); insn("mov t2, t2"); }
     std::string pro = out; out.clear();
     if (f.geti("gv")) { head += "\n\tglobal i64:gvr:r8"; pro = "\tmov gvr, " + std::to_string((long long) f.geti("gv")) + "\n" + pro + "\tadd v0, v0, gvr\n"; }
-    return head + "\n\tlocal i64:x1, i64:x2, i64:x3, d:fd0, d:fd1, i64:v0, i64:v1, i64:v2, i64:v3, i64:v4, i64:v5, i64:t0, i64:t1, i64:t2, i64:p, i64:buf, i64:lc0, i64:lc1, i64:lc2\n" + pro + body_txt + "\tendfunc\n";
+    return head + "\n\tlocal i64:x1, i64:x2, i64:x3, d:fd0, d:fd1, f:ff0, ld:fl0, d:rd, f:rf, ld:rl, i64:v0, i64:v1, i64:v2, i64:v3, i64:v4, i64:v5, i64:t0, i64:t1, i64:t2, i64:p, i64:buf, i64:lc0, i64:lc1, i64:lc2\n" + pro + body_txt + "\tendfunc\n";
   }
   // whole module; `all` maps every function name of the *program* to its signature
   std::string module(const Json &m, const std::map<std::string, FuncInfo> &all) {
-    sigs = &all; called.clear(); icalled.clear(); protos.clear(); lrefs.clear(); uses_ext = false; extn_sizes.clear(); data_used.clear();
+    sigs = &all; called.clear(); icalled.clear(); protos.clear(); lrefs.clear(); uses_ext = false; uses_extm = false; extn_sizes.clear(); data_used.clear();
     std::set<std::string> defined; for (auto &f : m.at("funcs").a) defined.insert(f.gets("name"));
     std::string funcs_txt; std::vector<std::pair<std::string, std::vector<std::string>>> all_lrefs;
     std::vector<std::string> ftxt; std::vector<std::set<std::string>> fcalls;
@@ -204,10 +231,12 @@ struct MirEmitter {
     std::set<std::string> imports; for (auto &c : called) if (!defined.count(c)) imports.insert(c); for (auto &c : icalled) if (!defined.count(c)) imports.insert(c);
     if (uses_ext) imports.insert("ext");
     if (!extn_sizes.empty()) imports.insert("extn");
+    if (uses_extm) imports.insert("extm");
     for (auto &i : imports) r += "\timport " + i + "\n";
     if (!fwd_first) for (auto &f : m.at("funcs").a) if (need_fwd.count(f.gets("name"))) r += "\tforward " + f.gets("name") + "\n";
     for (auto &l : all_lrefs) r += "\tforward " + l.first + "\n";
-    for (auto &p : protos) { r += proto_name(p.first, p.second) + ":\tproto i64"; for (int i = 0; i < p.first; i++) r += S(", i64:a%d", i); for (int i = 0; i < p.second; i++) r += S(", d:d%d", i); r += "\n"; }
+    for (auto &p : protos) { r += proto_name(p.first, p.second) + ":\tproto " + mir_ty(p.second); int ai = 0, di = 0; for (char c : p.first) { if (int_kind(c)) r += S(", %s:a%d", mir_ty(c), ai++); else r += S(", %s:d%d", mir_ty(c), di++); } r += "\n"; }
+    if (uses_extm) r += "p_extm:\tproto i64, i64:t, f:x, ld:y, i32:n, d:z, u8:b, ld:w, i64:s, f:x2, i16:h, i64:p, u32:q, i64:last\n";
     if (uses_ext) r += "p_ext:\tproto i64, i64:t, i64:v\n";
     for (int n : extn_sizes) { r += S("p_extn_%d:\tproto i64, i64:n", n); for (int i = 1; i <= n; i++) r += S(", i64:a%d", i); r += "\n"; }
     for (auto &c : icalled) r += "r_" + c + ":\tref " + c + ", 0\n";
@@ -220,7 +249,7 @@ struct MirEmitter {
 
 static inline std::map<std::string, FuncInfo> signatures(const Json &prog) {
   std::map<std::string, FuncInfo> m;
-  for (auto &mod : prog.at("mods").a) for (auto &f : mod.at("funcs").a) { FuncInfo fi; fi.name = f.gets("name"); fi.na = (int) f.geti("na"); fi.nd = (int) f.geti("nd"); fi.fuel = f.geti("fuel") != 0; m[fi.name] = fi; }
+  for (auto &mod : prog.at("mods").a) for (auto &f : mod.at("funcs").a) { FuncInfo fi; fi.name = f.gets("name"); fi.na = (int) f.geti("na"); fi.nd = (int) f.geti("nd"); fi.fuel = f.geti("fuel") != 0; fi.ps = ps_of(f); fi.rt = rt_of(f); m[fi.name] = fi; }
   return m;
 }
 
@@ -230,17 +259,24 @@ struct CEmitter {
   static std::string opnd(const Json &o) { if (o.k == Json::Str) return o.s; long long v = (long long) o.i; return v == INT64_MIN ? std::string("(-9223372036854775807LL-1)") : std::to_string(v) + "LL"; }
   void ind() { out.append((size_t) (2 + 2 * depth), ' '); }
   std::string U(const Json &o) { return "(unsigned long long)" + opnd(o); }
+  std::string L(const Json &o) { return "(long long)" + opnd(o); }   // parameters may have narrow (and unsigned) C types: every use converts first
   bool macros = false;
   void ret(const Json &s) {
     ind();
-    if (macros) out += "return (long long)(DSL_ID(DSL_MIX(" + opnd(s) + ")) + " + std::to_string((unsigned long long) fn->geti("salt")) + "ULL);\n";
-    else out += "return (long long)(" + U(s) + " * " + std::to_string(RETMUL) + "ULL + " + std::to_string((unsigned long long) fn->geti("salt")) + "ULL);\n";
+    char rt = rt_of(*fn);
+    std::string pre = rt == 'q' ? "(long long)(" : std::string("(") + c_ty(rt) + ")((", post = rt == 'q' ? ")" : ") & " + std::to_string((unsigned long long) rt_mask(rt)) + "ULL)";
+    if (macros) out += "return " + pre + "DSL_ID(DSL_MIX(" + opnd(s) + ")) + " + std::to_string((unsigned long long) fn->geti("salt")) + "ULL" + post + ";\n";
+    else out += "return " + pre + U(s) + " * " + std::to_string(RETMUL) + "ULL + " + std::to_string((unsigned long long) fn->geti("salt")) + "ULL" + post + ";\n";
   }
   void stmts(const Json &b) { for (auto &st : b.a) stmt(st); }
   void call(const std::string &target, const Json &dst, const std::string &callee, const Json &args, const std::map<std::string, FuncInfo> &sigs) {
-    auto &fi = sigs.at(callee); ind(); out += opnd(dst) + " = " + target + "(";
-    for (int i = 0; i < fi.na; i++) out += (i ? ", " : "") + (i < (int) args.size() ? opnd(args[i]) : std::string("0LL"));
-    for (int i = 0; i < fi.nd; i++) out += std::string(fi.na + i ? ", " : "") + S("%d.0", 2 + i);
+    auto &fi = sigs.at(callee); ind(); out += opnd(dst) + " = (long long) " + target + "(";
+    int ai = 0, di = 0, k = 0;
+    for (char c : fi.ps) {
+      if (k++) out += ", ";
+      if (int_kind(c)) { out += ai < (int) args.size() ? opnd(args[ai]) : std::string("0LL"); ai++; }
+      else { out += S("%d.0%s", 2 + di, c == 'f' ? "f" : c == 'l' ? "L" : ""); di++; }
+    }
     out += ");\n";
   }
   const std::map<std::string, FuncInfo> *sigs = nullptr;
@@ -250,14 +286,14 @@ struct CEmitter {
       const std::string &o = st[1].s; std::string d = opnd(st[2]), a = U(st[3]), b = U(st[4]); ind(); out += d + " = ";
       if (o == "add") out += "(long long)(" + a + " + " + b + ")"; else if (o == "sub") out += "(long long)(" + a + " - " + b + ")"; else if (o == "mul") out += "(long long)(" + a + " * " + b + ")";
       else if (o == "and") out += "(long long)(" + a + " & " + b + ")"; else if (o == "or") out += "(long long)(" + a + " | " + b + ")"; else if (o == "xor") out += "(long long)(" + a + " ^ " + b + ")";
-      else if (o == "lsh") out += "(long long)(" + a + " << " + opnd(st[4]) + ")"; else if (o == "ursh") out += "(long long)(" + a + " >> " + opnd(st[4]) + ")"; else if (o == "rsh") out += "(" + opnd(st[3]) + " >> " + opnd(st[4]) + ")";
+      else if (o == "lsh") out += "(long long)(" + a + " << " + opnd(st[4]) + ")"; else if (o == "ursh") out += "(long long)(" + a + " >> " + opnd(st[4]) + ")"; else if (o == "rsh") out += "(" + L(st[3]) + " >> " + opnd(st[4]) + ")";
       else if (o == "adds") out += "(long long)(int)((unsigned)" + a + " + (unsigned)" + b + ")"; else if (o == "subs") out += "(long long)(int)((unsigned)" + a + " - (unsigned)" + b + ")"; else if (o == "muls") out += "(long long)(int)((unsigned)" + a + " * (unsigned)" + b + ")";
       else if (o == "uadds") out += "(long long)(unsigned)((unsigned)" + a + " + (unsigned)" + b + ")";
-      else if (o == "eq") out += "(" + a + " == " + b + ")"; else if (o == "ne") out += "(" + a + " != " + b + ")"; else if (o == "lt") out += "(" + opnd(st[3]) + " < " + opnd(st[4]) + ")"; else if (o == "le") out += "(" + opnd(st[3]) + " <= " + opnd(st[4]) + ")"; else if (o == "ult") out += "(" + a + " < " + b + ")";
+      else if (o == "eq") out += "(" + a + " == " + b + ")"; else if (o == "ne") out += "(" + a + " != " + b + ")"; else if (o == "lt") out += "(" + L(st[3]) + " < " + L(st[4]) + ")"; else if (o == "le") out += "(" + L(st[3]) + " <= " + L(st[4]) + ")"; else if (o == "ult") out += "(" + a + " < " + b + ")";
       else out += "0";
       out += ";\n";
     } else if (k == "if" || k == "retif") {
-      const std::string &c = st[1].s; std::string a = opnd(st[2]), b = opnd(st[3]);
+      const std::string &c = st[1].s; std::string a = L(st[2]), b = L(st[3]);
       std::string cond = c == "eq" ? a + " == " + b : c == "ne" ? a + " != " + b : c == "lt" ? a + " < " + b : c == "le" ? a + " <= " + b : c == "gt" ? a + " > " + b : c == "ge" ? a + " >= " + b : c == "ult" ? U(st[2]) + " < " + U(st[3]) : U(st[2]) + " > " + U(st[3]);
       ind(); out += "if (" + cond + ") {\n"; depth++;
       if (k == "if") { stmts(st[4]); depth--; ind(); out += "} else {\n"; depth++; stmts(st[5]); } else ret(st[4]);
@@ -270,6 +306,8 @@ struct CEmitter {
     else if (k == "call") call(st[2].s, st[1], st[2].s, st[3], *sigs);
     else if (k == "icall") call("r_" + st[2].s, st[1], st[2].s, st[3], *sigs);
     else if (k == "ext") { ind(); out += opnd(st[1]) + " = ext(" + opnd(st[2]) + ", " + opnd(st[3]) + ");\n"; }
+    else if (k == "extm") { std::string v = opnd(st[2]), mk = "(" + U(st[2]) + " & 4095ULL)"; ind();
+      out += opnd(st[1]) + " = extm(" + v + ", (float)" + mk + ", (long double)" + mk + ", (int)" + v + ", (double)" + mk + ", (unsigned char)" + v + ", (long double)" + mk + ", " + v + ", (float)" + mk + ", (short)" + v + ", " + v + ", (unsigned int)" + v + ", " + v + ");\n"; }
     else if (k == "sw" || k == "jt" || k == "lt" || k == "ld") {
       ind(); out += "switch (" + (k == "sw" ? U(st[1]) : "(unsigned long long) ext(9LL, " + opnd(st[1]) + ")") + " % " + std::to_string(st[2].size()) + "ULL) {\n";
       for (size_t i = 0; i < st[2].size(); i++) { ind(); out += "case " + std::to_string(i) + ": {\n"; depth++; if (k != "sw") { ind(); out += "ext(" + std::to_string(20 + i) + "LL, 0LL);\n"; } stmts(st[2][i]); ind(); out += "break; }\n"; depth--; }
@@ -288,19 +326,22 @@ struct CEmitter {
       r += "#define DSL_MIX(x) ((unsigned long long)(x) * " + std::to_string(RETMUL) + "ULL)\n#define DSL_MIX(x) ((unsigned long long)(x) * " + std::to_string(RETMUL) + "ULL)\n"
            "#define DSL_K 7\n#define DSL_K 7\n#ifdef DSL_K\n#if DSL_K > 3 && defined(DSL_MIX)\n#define DSL_ID(x) (x)\n#else\n#define DSL_ID(x) (0)\n#endif\n#else\n#define DSL_ID(x) (1)\n#endif\n#undef DSL_K\n";
     r += "extern long long ext(long long, long long);\n";
+    { bool um = false; for (auto &f : m.at("funcs").a) walk(f.at("body"), [&](const Json &st) { if (st[0].s == "extm") um = true; });
+      if (um) r += "extern long long extm(long long, float, long double, int, double, unsigned char, long double, long long, float, short, long long, unsigned int, long long);\n"; }
     std::set<std::string> defined; for (auto &f : m.at("funcs").a) defined.insert(f.gets("name"));
-    auto proto = [&](const FuncInfo &fi) { std::string s = "long long " + fi.name + "("; for (int i = 0; i < fi.na; i++) s += S("%slong long a%d", i ? ", " : "", i); for (int i = 0; i < fi.nd; i++) s += S("%sdouble d%d", fi.na + i ? ", " : "", i); if (fi.na + fi.nd == 0) s += "void"; return s + ")"; };
+    auto plist = [&](const FuncInfo &fi, bool names) { std::string s; int ai = 0, di = 0, k = 0; for (char c : fi.ps) { if (k++) s += ", "; s += c_ty(c); if (names) s += int_kind(c) ? S(" a%d", ai++) : S(" d%d", di++); } if (fi.ps.empty()) s += "void"; return s; };
+    auto proto = [&](const FuncInfo &fi) { return std::string(c_ty(fi.rt)) + " " + fi.name + "(" + plist(fi, true) + ")"; };
     std::set<std::string> used, ic;
     for (auto &f : m.at("funcs").a) walk(f.at("body"), [&](const Json &st) { if (st[0].s == "call" || st[0].s == "icall") used.insert(st[2].s); if (st[0].s == "icall") ic.insert(st[2].s); });
     for (auto &u : used) r += (defined.count(u) ? "" : "extern ") + proto(all.at(u)) + ";\n";
     for (auto &f : m.at("funcs").a) { auto &fi = all.at(f.gets("name")); if (!used.count(fi.name)) r += proto(fi) + ";\n"; }
-    for (auto &c : ic) { auto &fi = all.at(c); std::string s = "static long long (*r_" + c + ")("; for (int i = 0; i < fi.na; i++) s += i ? ", long long" : "long long"; for (int i = 0; i < fi.nd; i++) s += fi.na + i ? ", double" : "double"; if (fi.na + fi.nd == 0) s += "void"; r += s + ") = " + c + ";\n"; }
+    for (auto &c : ic) { auto &fi = all.at(c); r += std::string("static ") + c_ty(fi.rt) + " (*r_" + c + ")(" + plist(fi, false) + ") = " + c + ";\n"; }
     for (auto &f : m.at("funcs").a) {
       fn = &f; depth = 0; out.clear(); auto &fi = all.at(f.gets("name"));
       r += (f.geti("exp", 1) ? "" : "static ") + proto(fi) + " {\n  long long v0 = 0, v1 = 0, v2 = 0, v3 = 0, v4 = 0, v5 = 0; char buf[64];\n  (void) v1; (void) v2; (void) v3; (void) v4; (void) v5; (void) buf;\n";
       if (f.geti("gv")) r += "  v0 += " + std::to_string((long long) f.geti("gv")) + "LL;\n";
       for (int i = 0; i < fi.nd; i++) r += S("  v0 += (long long) d%d;\n", i);
-      if (fi.fuel) r += "  if (!(a0 > 0)) return (long long)(7ULL * " + std::to_string(RETMUL) + "ULL + " + std::to_string((unsigned long long) f.geti("salt")) + "ULL);\n";
+      if (fi.fuel) { Json seven(7); bool mc = macros; macros = false; out.clear(); depth = 0; ret(seven); macros = mc; r += "  if (!(a0 > 0)) " + out.substr(2); out.clear(); }
       stmts(f.at("body"));
       const Json &b = f.at("body"); if (b.size() == 0 || b[b.size() - 1][0].s != "ret") { Json z(0); ret(z); }
       r += out + "}\n";
@@ -354,7 +395,8 @@ struct Model {
         int64_t n = st[2].num(), v = val(st[3], fr); log.push_back({100 + n, v}); uint64_t r = (uint64_t) n;
         for (int64_t i = 1; i <= n; i++) r = r * 31 + (uint64_t) (i <= 3 ? v + i : i * 7);
         setv(st[1], fr, (int64_t) r);
-      } else if (k == "ext") { int64_t tag = val(st[2], fr), v = val(st[3], fr); log.push_back({tag, v}); int64_t r = ext ? ext(tag, v, *this) : v * 3 + tag; setv(st[1], fr, r); }
+      } else if (k == "extm") { int64_t v = val(st[2], fr); log.push_back({200, v}); setv(st[1], fr, (int64_t) extm_value(v)); }
+      else if (k == "ext") { int64_t tag = val(st[2], fr), v = val(st[3], fr); log.push_back({tag, v}); int64_t r = ext ? ext(tag, v, *this) : v * 3 + tag; setv(st[1], fr, r); }
       else if (k == "sw") { uint64_t s = (uint64_t) val(st[1], fr); run(st[2][s % st[2].size()], fr); }
       else if (k == "jt" || k == "lt" || k == "ld") { int64_t v = val(st[1], fr); log.push_back({9, v}); uint64_t s = (uint64_t) (ext ? ext(9, v, *this) : v * 3 + 9); size_t ci = s % st[2].size(); log.push_back({(int64_t) (20 + ci), 0}); if (ext) ext((int64_t) (20 + ci), 0, *this); run(st[2][ci], fr); }
       else if (k == "mem") {
@@ -371,19 +413,21 @@ struct Model {
     if (++depth > 200) { overrun = true; depth--; return 0; }
     entered.push_back(&f);
     Frame fr; memset(fr.v, 0, sizeof fr.v); fr.f = &f; fr.mod = module_of ? module_of(&f) : ""; fr.a = args; fr.a.resize((size_t) f.geti("na"), 0);
+    char rt = rt_of(f); uint64_t rmask = rt_mask(rt);
+    { std::string ps = ps_of(f); size_t ai = 0; for (char c : ps) if (int_kind(c)) { if (ai < fr.a.size()) fr.a[ai] = narrow(c, fr.a[ai]); ai++; } }  // a narrow parameter holds its argument converted to its type
     fr.v[0] += f.geti("gv");                                         // hard-register global variable, set and added in the prologue
     for (int i = 0; i < (int) f.geti("nd"); i++) fr.v[0] += 2 + i;  // callers always pass 2.0, 3.0, ... (d2i)
-    if (f.geti("fuel") && !(fr.a[0] > 0)) { depth--; return retval(fr, 7); }
+    if (f.geti("fuel") && !(fr.a[0] > 0)) { depth--; return (int64_t) ((uint64_t) retval(fr, 7) & rmask); }
     run(f.at("body"), fr);
     depth--;
-    return fr.returned ? fr.rv : retval(fr, 0);
+    return (int64_t) ((uint64_t) (fr.returned ? fr.rv : retval(fr, 0)) & rmask);
   }
 };
 
 // ------------------------------------------------------------------------------------------------ generator
 struct GenOpts {
   int nmods = 2, nfuncs = 3, body = 6; bool lref = true, jt = true, icall = true, ext = true, mem = true, loops = true, doubles = true, recursion = true, sw = true;
-  int max_na = 8; int sw_weight = 8; bool blocked = false, wide = false; bool gvar = true, fpbranch = true, ldiff = true, extn = false;
+  int max_na = 8; int sw_weight = 8; bool blocked = false, wide = false; bool gvar = true, fpbranch = true, ldiff = true, extn = false, typed = false, extm = false;
 };
 struct Generator {
   Rng &r; GenOpts o; std::vector<FuncInfo> fs; int cur = 0; int depth = 0; bool in_loop = false;
@@ -429,6 +473,7 @@ struct Generator {
       if (ic && !o.icall) return stmt_simple();
       s.push(ic ? "icall" : "call"); s.push(dst()); s.push(fs[j].name); s.push(args_for(j, j <= cur));
     } else if (c < 68 && o.extn) { static const int ns[] = {7, 20, 63, 65, 70}; s.push("extn"); s.push(dst()); s.push(ns[r.below(5)]); s.push(src(false)); }
+    else if (c < 70 && o.extm) { s.push("extm"); s.push(dst()); s.push(src(false)); }
     else if (c < 74 && o.ext) { s.push("ext"); s.push(dst()); s.push((int) r.range(1, 6)); s.push(src()); }
     else if (c < 74 + (unsigned) o.sw_weight && o.sw) {
       depth++; s.push("sw"); s.push(src(false)); Json cs = Json::array(); int n = (int) r.range(2, 4); for (int i = 0; i < n; i++) cs.push(block((int) r.range(1, 2))); s.push(cs); depth--;
@@ -444,6 +489,17 @@ struct Generator {
       if (o.wide && i == total - 1 && !fi.fuel) fi.na = (int) r.range(65, 70);   // one function with a very long parameter list
       fi.nd = fi.na > 8 ? 0 : o.doubles && r.chance(1, 4) ? (int) (r.chance(1, 3) ? r.range(4, 8) : r.range(1, 3)) : 0; fi.cgoto = (o.jt || o.lref) && r.chance(1, 2);
       if (fi.na > 8) fi.cgoto = false;
+      if (o.typed && fi.na <= 8 && r.chance(1, 2)) {  // parameter kinds: narrow integers, float, long double, in any order; floating-point result
+        if (fi.nd == 0 && r.chance(1, 2)) fi.nd = (int) r.range(1, r.chance(1, 4) ? 10 : 4);
+        bool stacky = r.chance(1, 3);   // more integers than integer registers (or more doubles than SSE registers) followed by long doubles: everything meets on the stack
+        if (stacky) { if (r.chance(2, 3)) fi.na = (int) r.range(7, 8); else fi.nd = (int) r.range(9, 10); if (fi.nd == 0) fi.nd = (int) r.range(1, 3); }
+        static const char ik[] = "qqqiubBwW", fk[] = "ddfl"; std::string ints, fps;
+        for (int k = 0; k < fi.na; k++) ints += (k == 0 && fi.fuel) ? 'q' : ik[r.below(9)];
+        for (int k = 0; k < fi.nd; k++) fps += fk[r.below(4)];
+        if (stacky) fps[fps.size() - 1] = 'l';
+        size_t a = 0, b = 0; while (a < ints.size() || b < fps.size()) { bool ti = b >= fps.size() || (a < ints.size() && r.coin()); if (a == 0 && fi.fuel) ti = true; if (stacky && b + 1 == fps.size() && a < ints.size()) ti = true; fi.ps += ti ? ints[a++] : fps[b++]; }  // (stacky: the last long double comes after all integers)
+        if (r.chance(1, 3)) fi.rt = "dfl"[r.below(3)];
+      }
       if (o.gvar && fi.na <= 4 && r.chance(1, 6)) fi.gv = (int) r.range(1, 90);  // a variable tied to hard register r8 (free when at most 4 integer parameters)
       fs.push_back(fi); }
     // spread functions over modules round-robin so that calls cross module borders in both directions
@@ -451,7 +507,7 @@ struct Generator {
     for (int m = 0; m < o.nmods; m++) { Json mo = Json::object(); mo.set("name", S("m%d", m)); mo.set("funcs", Json::array()); mods.push(mo); }
     for (int i = 0; i < total; i++) {
       cur = i; depth = 0; in_loop = false;
-      Json f = Json::object(); f.set("name", fs[i].name); f.set("salt", (long long) (1000 + 37 * i + (long long) r.below(30))); f.set("na", fs[i].na); f.set("nd", fs[i].nd); f.set("fuel", (int) fs[i].fuel); f.set("exp", 1); if (fs[i].gv) f.set("gv", fs[i].gv);
+      Json f = Json::object(); f.set("name", fs[i].name); f.set("salt", (long long) (1000 + 37 * i + (long long) r.below(30))); f.set("na", fs[i].na); f.set("nd", fs[i].nd); f.set("fuel", (int) fs[i].fuel); f.set("exp", 1); if (fs[i].gv) f.set("gv", fs[i].gv); if (!fs[i].ps.empty()) f.set("ps", fs[i].ps); if (fs[i].rt != 'q') f.set("rt", std::string(1, fs[i].rt));
       Json body = Json::array();
       if (fs[i].fuel) { Json s = Json::array(); s.push("op"); s.push("sub"); s.push("v5"); s.push("a0"); s.push(1); body.push(s); }
       // computed gotos (laddr/jmpi, lref tables) come first in a body, where they are reachable whatever the optimizer folds:
@@ -477,7 +533,7 @@ static inline void protect_fuel(Json &prog) {
     for (auto &st : b.a) {
       const std::string k = st[0].s;
       if (k == "op" && st[2].k == Json::Str && st[2].s == "v5") st[2] = Json("v4");
-      else if ((k == "call" || k == "icall" || k == "ext" || k == "mem") && st[1].k == Json::Str && st[1].s == "v5") st[1] = Json("v4");
+      else if ((k == "call" || k == "icall" || k == "ext" || k == "extm" || k == "mem") && st[1].k == Json::Str && st[1].s == "v5") st[1] = Json("v4");
       for_each_block_mut(st, fix);
     }
   };
